@@ -64,7 +64,7 @@ def validate(number):
     """Check if the number provided is a valid AT-02."""
     number = compact(number)
     try:
-        test_number = _to_base10(number)
+        test_number = _to_base10(number.encode('ascii').decode('ascii'))
     except Exception:  # noqa: B902
         raise InvalidFormat()
     # ensure that checksum is valid
